@@ -372,7 +372,9 @@ impl<'a, T: IteTable<'a, BddPtr<'a>> + Default> Session<'a, T> {
             "newvar" => {
                 let p = rng.coin();
                 ev["a"] = json!([p as u8]);
-                let r = guarded(|| b.new_var(p));
+                // new_pos / new_neg are the documented shorthands of new_var(true / false)
+                let short = rng.coin();
+                let r = guarded(|| if !short { b.new_var(p) } else if p { b.new_pos() } else { b.new_neg() });
                 match r {
                     Ok((lbl, ptr)) => {
                         ev["label"] = json!(lbl.value_usize());
